@@ -28,7 +28,7 @@ COMPONENTS = {
     "stub": ["broker ledger (exact Fraction arithmetic) as the reference", "TapePrimary", "Quantised model (positions on a 1/4 grid)"],
 }
 ASSUMPTIONS = [
-    "admissible error = 4*(H*T+10)*eps(dtype)*sum|terms| (forward rounding bound of the summation, safety factor 4)",
+    "admissible error = (H*T+10)*eps(dtype)*sum|terms| (forward rounding bound of the summation; worst observed error/bound over 3000 large runs: 0.10)",
     "the direct pl()/terminal_value() operations are plain value generation (no schedule/fault dimension); they are labelled "
     "'direct_pl' in operations_by_kind",
 ]
@@ -168,7 +168,7 @@ def compare(reported, S, U, cost, Z, first, dtype, site, stats, seq, detail):
     N, H, T = S.shape
     ref, mags, info = ledger(S.double().tolist(), U.double().tolist(), cost, Z.double().tolist() if Z is not None else None, first)
     eps = torch.finfo(dtype).eps
-    K = 4 * (H * T + 10)
+    K = H * T + 10
     stats.checks += N
     if tuple(reported.shape) != (N,):
         raise Violation(ID, "pl_shape", site, {"shape": list(reported.shape), "N": N}, seq)
